@@ -681,8 +681,7 @@ LocalExit:
                     tk->syntaxK_ = SyntaxKind::GreaterThanGreaterThanEqualsToken;
                 }
                 else
-                    tk->syntaxK_ = SyntaxKind::LessThanLessThanToken;
-                tk->syntaxK_ = SyntaxKind::GreaterThanGreaterThanToken;
+                    tk->syntaxK_ = SyntaxKind::GreaterThanGreaterThanToken;
             }
             else if (yychar_ == '=') {
                 tk->syntaxK_ = SyntaxKind::GreaterThanEqualsToken;
